@@ -171,6 +171,14 @@ func (d *DKG) ProcessDeals() ([]*dkg.Response, error) {
 		if deal.Index == uint32(d.ParticipantID) {
 			continue
 		}
+		// kyber dereferences the deal's share without looking: a dealer that leaves it out must
+		// be refused here, not crash the machine
+		if verifier, ok := d.instance.Verifiers()[deal.Index]; ok && deal.Deal != nil {
+			if plain, err := verifier.DecryptDeal(deal.Deal); err == nil && (plain.SecShare == nil || plain.SecShare.V == nil) {
+				return nil, fmt.Errorf("deal of participant %d carries no share", deal.Index)
+			}
+		}
+
 		resp, err := d.instance.ProcessDeal(deal)
 		if err != nil {
 			return nil, err
